@@ -37,7 +37,7 @@ VARIABLES d, p,       \* configuration of the blob table
           shard,      \* shard states now
           pre,        \* shard states before the last read
           last,       \* the last read: [res, eq, nd] or NoRead
-          rounds,     \* damage steps so far
+          rounds,     \* damage steps since the files were last put back to their as-written state
           wdev        \* the write was taken by the finding action WriteDeviates
 
 vars == <<d, p, repair, phase, base, shard, pre, last, rounds, wdev>>
@@ -88,7 +88,7 @@ Damage(a, fresh) ==
   /\ \A i \in Shards : a[i] # "ok" => base[i] = "ok"
   /\ shard' = [i \in Shards |-> IF a[i] # "ok" THEN a[i] ELSE IF fresh THEN base[i] ELSE shard[i]]
   /\ pre' = shard'
-  /\ last' = NoRead /\ rounds' = rounds + 1
+  /\ last' = NoRead /\ rounds' = IF fresh THEN 1 ELSE rounds + 1
   /\ UNCHANGED <<d, p, repair, phase, base, wdev>>
 
 (* BlobStoreWithEC.GetOne.
@@ -189,7 +189,9 @@ MCRead   == /\ last = NoRead /\ pre = shard
 MCInspect == /\ phase \in {"stored", "failed"}
              /\ (pre = shard \/ (last.res # "none" /\ shard = AllOk))   \* not on top of an adopted observation
              /\ \E intact \in NearObservations :
-                   Inspect(intact) \/ InspectUnspecified(intact) \/ InspectDeviates(intact)
+                   \* observations that differ from the model: after the write, and after reads that may rewrite files
+                   /\ (Observed(intact) \/ (rounds = 0 /\ last = NoRead) \/ (repair /\ last.res # "none"))
+                   /\ (Inspect(intact) \/ InspectUnspecified(intact) \/ InspectDeviates(intact))
 
 Next == MCWrite \/ MCDamage \/ MCDamageAfterRepair \/ MCRead \/ MCInspect
 
